@@ -127,6 +127,26 @@ def _shc(t):
         return repr(t)[:90]
 
 
+CALLEE_SAVED = frozenset((6, 7, 8, 9))
+
+
+def _range_members(t):
+    """the register numbers a constant range expression selects (None when it is not one): the half-open and the
+    inclusive forms denote different sets for the same two bounds"""
+    if not (isinstance(t, tuple) and t and t[0] == "struct"):
+        return None
+    f = dict(t[3])
+    lo, hi = f.get("start"), f.get("end")
+    if not (T.is_k(lo) and T.is_k(hi)):
+        return None
+    lo, hi = lo[2], hi[2]
+    if t[2] == "Range":
+        return frozenset(range(lo, hi))
+    if t[2] == "RangeInclusive":
+        return frozenset(range(lo, hi + 1))
+    return None
+
+
 def run(rep, tier, parts=("interp", "api", "jit")):
     cx = Ctx(rep, "std")
     F = cx.F
@@ -188,7 +208,7 @@ def run(rep, tier, parts=("interp", "api", "jit")):
         fr = fe.get("frames")
         saved_ret = fr is not None and fr[0] == "upd" and fr[2] == idx and isinstance(fr[3], tuple) and fr[3][0] == "updf" and fr[3][2] == "return_address" and fr[3][3] == next_pc
         copy_ok = len(fe["copy"]) == 1 and "saved_registers" in repr(fe["copy"][0][0]) and repr(idx) in repr(fe["copy"][0][0])
-        rng_ok = any(e[0] == "call" and e[1].endswith("::index") and "('k', 64, 6)" in repr(e[2][1]) and "('k', 64, 9)" in repr(e[2][1]) and "REG" in repr(e[2][0])
+        rng_ok = any(e[0] == "call" and e[1].endswith("::index") and _range_members(e[2][1]) == CALLEE_SAVED and "REG" in repr(e[2][0])
                      for e in p["effects"])
         r10 = fe["r10"]
         r10_ok = r10 is not None and (r10 == T.op("add", 64, ("sel", imodel.REG, T.K(64, 10), 64), T.K(64, -F.const("ebpf::LOCAL_FUNCTION_STACK_SIZE")))
@@ -206,7 +226,7 @@ def run(rep, tier, parts=("interp", "api", "jit")):
         usage_kind = "default" if any("is_Default" in repr(c) and c[0] != "not" for c in p["conds"]) else "custom"
         frame_name = "[%s]" % T.show(idx_m1)
         copy_ok = len(fe["copy"]) == 1 and frame_name in repr(fe["copy"][0][1]) and "saved_registers" in repr(fe["copy"][0][1])
-        rng_ok = any(e[0] == "call" and e[1].endswith("::index_mut") and "('k', 64, 6)" in repr(e[2][1]) and "('k', 64, 9)" in repr(e[2][1]) for e in p["effects"])
+        rng_ok = any(e[0] == "call" and e[1].endswith("::index_mut") and _range_members(e[2][1]) == CALLEE_SAVED for e in p["effects"])
         pc_ok = p["pc"] is not None and frame_name in repr(p["pc"]) and "return_address" in repr(p["pc"])
         r10 = fe["r10"]
         r10_ok = r10 is not None and (r10 == T.op("add", 64, ("sel", imodel.REG, T.K(64, 10), 64), T.K(64, F.const("ebpf::LOCAL_FUNCTION_STACK_SIZE")))
